@@ -157,4 +157,53 @@ Section RawRun.
       + apply (disc_app U start [] J1 _ _ Hd HJ1 Hdl).
       + exists Jk. split; [rewrite sfold_app, HJ1; exact HJk|]. split; [exists (Vk ++ []); exact HRk | exact Hfin].
   Qed.
+  (* ---------------------------------------------------------------- the same from a consumer that holds hc (cursor mode) *)
+
+  (* pre0: the events that bring the consumer J0 to hc (the resolver's Undo / Irreversible events) *)
+  Lemma cursor_join_raw w J0 pre0 hc Dpre bn lowest burst k :
+    sfold J0 pre0 = Some (rev hc) ->
+    WOK U c w -> eventual_tip c w canon -> join_good U c merged w ->
+    (exists x, lnk x ((hc ++ Dpre) ++ [bn])) -> (forall b, In b ((hc ++ Dpre) ++ [bn]) -> In b merged) ->
+    (forall z r, (hc ++ Dpre) ++ [bn] = z :: r -> bnum z <= start) ->
+    join_try c w lowest (fev bn) = Some burst ->
+    let X := pre0 ++ map fev Dpre ++ burst ++ pushed c k w in
+    exists J, sfold J0 X = Some J /\ (w_rest (world_after c k w) = [] -> from_num start (rev J) = from_num start canon).
+  Proof.
+    intros Hpre HW Htip Hjg Hl Hin Hbot Ej X.
+    destruct (join_raw w (hc ++ Dpre) bn lowest burst k HW Htip Hjg Hl Hin Hbot Ej) as (_ & J & HJ & _ & Hfin).
+    exists J. split; [|exact Hfin].
+    destruct Hl as [x0 Hl].
+    destruct (files_raw hc) as (Hfh & _ & _).
+    - exists x0. rewrite <- app_assoc in Hl. eapply linked_prefix. exact Hl.
+    - intros b Hb. apply Hin. apply in_or_app. left. apply in_or_app. left. exact Hb.
+    - intros z r Ez. apply (Hbot z (r ++ Dpre ++ [bn])). rewrite <- app_assoc, Ez. reflexivity.
+    - unfold X. rewrite sfold_app, Hpre. rewrite map_app, <- app_assoc, sfold_app, Hfh in HJ. exact HJ.
+  Qed.
+
+  Lemma cursor_files_raw J0 pre0 hc later :
+    sfold J0 pre0 = Some (rev hc) ->
+    (exists x, lnk x (hc ++ later)) -> (forall b, In b (hc ++ later) -> In b merged) ->
+    (forall z r, hc ++ later = z :: r -> bnum z <= start) ->
+    sfold J0 (pre0 ++ map fev later) = Some (rev (hc ++ later)).
+  Proof.
+    intros Hpre [x0 Hl] Hin Hbot.
+    destruct (files_raw (hc ++ later) (ex_intro _ x0 Hl) Hin Hbot) as (Hall & _ & _).
+    destruct (files_raw hc) as (Hfh & _ & _).
+    - exists x0. eapply linked_prefix. exact Hl.
+    - intros b Hb. apply Hin. apply in_or_app. left. exact Hb.
+    - intros z r Ez. apply (Hbot z (r ++ later)). rewrite Ez. reflexivity.
+    - rewrite sfold_app, Hpre. rewrite map_app, sfold_app, Hfh in Hall. exact Hall.
+  Qed.
+
+  (* live from a consumer K the hub serves (cursor mode): the burst brings it onto the hub's chain *)
+  Lemma cursor_live_raw w V E J0 burst J1 k :
+    LOK U c w V -> eventual_tip c w canon ->
+    sfold J0 burst = Some J1 -> Rel (V ++ E) J1 ->
+    let X := burst ++ pushed c k w in
+    exists J, sfold J0 X = Some J /\ (w_rest (world_after c k w) = [] -> from_num start (rev J) = from_num start canon).
+  Proof.
+    intros HL Htip Hb HR X.
+    destruct (live_raw w V E J1 k HL Htip HR) as (_ & Vk & Jk & HJk & _ & _ & Hfin).
+    exists Jk. split; [unfold X; rewrite sfold_app, Hb; exact HJk | exact Hfin].
+  Qed.
 End RawRun.
